@@ -20,7 +20,11 @@ use std::time::{Duration, Instant};
 use dust_dds::std_runtime::executor::{block_on, block_timeout, Executor};
 use dust_dds::std_runtime::timer::{Sleep, TimerDriver, TimerHandle};
 
-const LOST_TIMEOUT: Duration = Duration::from_secs(20);
+/// how long a wake-up is waited for before the case is reported as LOST (C42_LOST_MS overrides)
+fn lost_timeout() -> Duration {
+    let ms = std::env::var("C42_LOST_MS").ok().and_then(|s| s.parse::<u64>().ok()).unwrap_or(20_000);
+    Duration::from_millis(ms)
+}
 const FAR_US: i128 = 1_000_000; // sleeps of >= 1 s are never waited for
 
 // ------------------------------------------------------------------ shared log
@@ -251,9 +255,10 @@ impl TimerCase {
     /// waits until token `tok` has been woken; false = gave up
     fn wait_fired(&self, tok: i64) -> bool {
         let start = Instant::now();
+        let lost = lost_timeout();
         let mut n = 0u32;
         while !self.sh.has_fired(tok) {
-            if start.elapsed() > LOST_TIMEOUT {
+            if start.elapsed() > lost {
                 return false;
             }
             n += 1;
